@@ -18,7 +18,7 @@ from harness import coop, plans
 from uberjob._graph import get_full_call_scope
 from uberjob._transformations.caching import _get_stale_scope
 from uberjob.graph import Call
-from uberjob.progress import Progress, ProgressObserver
+from uberjob.progress import NullProgressObserver, Progress, ProgressObserver
 
 GEN = ["Engine", "Observer"]
 ASSUMPTIONS = ["calls end normally or with an Exception (a BaseException raised by a call is reported by the engine but not to the observer)",
@@ -57,9 +57,17 @@ class RecObs(ProgressObserver):
         self.add("failed", section, scope, type(exception).__name__)
 
 
+class RecNullObs(RecObs, NullProgressObserver):
+    """the same recorder, written the way users write small observers: as a subclass of the do-nothing observer that
+    overrides the hooks it cares about (here: all of them)"""
+
+    def __init__(self):
+        RecObs.__init__(self)
+
+
 class RecProgress(Progress):
     def __init__(self, n):
-        self.obs = [RecObs() for _ in range(n)]
+        self.obs = [(RecNullObs if k % 2 == 1 else RecObs)() for k in range(n)]
 
     def observer(self):
         from uberjob.progress._composite_progress_observer import CompositeProgressObserver
